@@ -130,6 +130,12 @@ def g1(rep, tms):
         early = [e for e in g.ok_exits if e["kind"] == "Ok" and good is not None and e["order"] < good["order"]]
         if good is None:
             caps = _loop_caps(tm)
+            for cp in caps:
+                r["instances"] += 1
+                rep.add(Finding("G1", tm.pfn, "%s:cap:%s" % (tm.name, cp.split(" at line")[0].replace(" ", "")),
+                                "%s::parse_from_block4 stops repeating at a cap (%s) and has no end-of-input check: "
+                                "repetitions beyond the cap are accepted and dropped" % (tm.name, cp), tm.file,
+                                int(cp.rsplit(" ", 1)[-1]) if cp.rsplit(" ", 1)[-1].isdigit() else None))
             rep.add(Finding("G1", tm.pfn, tm.name,
                             "%s::parse_from_block4 returns Ok without checking that the cursor reached the "
                             "end of block 4: trailing / unknown / surplus fields are accepted and dropped%s"
@@ -475,6 +481,26 @@ def g4_g5_g6(rep, tms):
                                         "present the message is accepted and the field dropped"
                                         % (G.short(inst.path), fname, "/".join(sorted({s.tag or '?' for s in outside}))),
                                         tm.file, ifn.get("ln")))
+        # a single-valued model field fed by two steps that can both run on one path: one value overwrites the
+        # other (a parsed occurrence is dropped), or one step's value lands in two fields
+        for inst in structs:
+            flds = dict(tm.ft.struct_fields(inst.path))
+            for fname, av in inst.fields.items():
+                fk, _ = G.unwrap_ty(flds.get(fname, ""))
+                if fk == "repeated":
+                    continue
+                ss = [tm.g.sites[a[1]] for a in av.flat() if a[0] == "P"]
+                ss = [x for x in ss if len(x.loops) <= len(inst.loops)]
+                for i in range(len(ss)):
+                    for j in range(i + 1, len(ss)):
+                        r4["instances"] += 1
+                        if not _exclusive(ss[i], ss[j], inst.ifnodes):
+                            rep.add(Finding("G4", tm.pfn, "%s.%s:overwrite:%s+%s" % (G.short(inst.path), fname, ss[i].tag, ss[j].tag),
+                                            "%s.%s can be filled by two parse steps (tags %s at line %s and %s at line %s) "
+                                            "that are not alternatives of one branch: when both occurrences are present "
+                                            "one of them is consumed and dropped" % (G.short(inst.path), fname, ss[i].tag,
+                                                                                     ss[i].ln, ss[j].tag, ss[j].ln),
+                                            tm.file, ss[j].ln))
         # every struct field that a step can fill is appended; every step feeds an append
         for inst in structs:
             for fname, av in inst.fields.items():
@@ -518,6 +544,39 @@ def g4_g5_g6(rep, tms):
                                 % (s.tag, "a" if s.variant else "", G.short(s.ty), ",".join(":%s:" % b for b in bad)),
                                 tm.file, s.ln))
     return r4, r5, r6
+
+
+def _exclusive(a, b, ifnodes=None):
+    """two sites lie in different branches of one if / match, or the earlier one sits in a branch that returns"""
+    n = 0
+    for ca, cb in zip(a.conds, b.conds):
+        if ca == cb:
+            n += 1
+            continue
+        if ca[0] == cb[0] and ca[1] == cb[1] and ca[2] != cb[2]:
+            return True
+        break
+    first, second = (a, b) if a.order < b.order else (b, a)
+    rest = first.conds[n:]
+    if rest and rest[0][0] == "if" and rest[0][2] is True and ifnodes:
+        ifn = ifnodes.get(rest[0][1])
+        if ifn is not None and _branch_returns(ifn["then"]):
+            return True
+    return False
+
+
+def _branch_returns(n):
+    if n is None:
+        return False
+    k = n.get("k")
+    if k == "ret":
+        return True
+    if k == "block":
+        for st in n.get("stmts") or []:
+            if st.get("k") == "ret":
+                return True
+        return _branch_returns(n.get("expr")) if n.get("expr") is not None else False
+    return False
 
 
 def inst_conds(tm, inst):
@@ -647,3 +706,84 @@ def _leaves_loop(n):
 
 def _cond_on_same_tag(s, m):
     return False
+
+
+def layouts(tms):
+    """{struct short name: [(tag, kind)]} in parse order, per model struct"""
+    out = {}
+    for tm in tms:
+        if tm.g is None:
+            continue
+        for inst in tm.model_structs():
+            rows = []
+            for fname, av in inst.fields.items():
+                for a in av.flat():
+                    if a[0] == "P":
+                        s = tm.g.sites[a[1]]
+                        deeper = len(s.loops) > len(inst.loops)
+                        rows.append((s.order, s.tag + ("a" if s.variant else ""), "repeated" if deeper or s.kind == "repeated" else s.kind, G.short(s.ty)))
+            rows = sorted(set(rows))
+            seq = []
+            for o, tag, kind, ty in rows:
+                if not seq or seq[-1][:2] != (tag, kind) or seq[-1][2] != ty:
+                    seq.append((tag, kind, ty))
+            out.setdefault(G.short(inst.path), seq)
+    return out
+
+
+def g10(rep, tms):
+    r = rep.rule("G10", "sibling layouts agree: two model structs (of different message types) that read the same "
+                        "multiset of tags read them in the same order with the same kinds", floor=2)
+    lay = layouts(tms)
+    names = sorted(lay)
+    for i in range(len(names)):
+        for j in range(i + 1, len(names)):
+            a, b = lay[names[i]], lay[names[j]]
+            ta = sorted(t for t, k, ty in a)
+            tb = sorted(t for t, k, ty in b)
+            if len(a) < 5 or ta != tb:
+                continue
+            r["instances"] += 1
+            sa = [(t, k) for t, k, ty in a]
+            sb = [(t, k) for t, k, ty in b]
+            if sa != sb:
+                d = next((x for x in range(min(len(sa), len(sb))) if sa[x] != sb[x]), 0)
+                rep.add(Finding("G10", names[j], "%s~%s" % (names[i], names[j]),
+                                "%s and %s carry the same fields but read them in different orders / kinds (first "
+                                "difference at step %d: %s vs %s): one of the two no longer follows the common layout"
+                                % (names[i], names[j], d + 1, sa[d] if d < len(sa) else None, sb[d] if d < len(sb) else None)))
+    return r
+
+
+def g11(rep, tms):
+    import json as _json
+    import os as _os
+    r = rep.rule("G11", "layout = reviewed reference: per model struct the sequence of (tag, kind) the parser reads "
+                        "equals the reference layout of the type", floor=40)
+    path = _os.path.join(_os.path.dirname(_os.path.dirname(_os.path.abspath(__file__))), "spec", "layouts.json")
+    if not _os.path.exists(path):
+        rep.fail_closed("G11: spec/layouts.json missing")
+        return r
+    ref = _json.load(open(path))["structs"]
+    lay = layouts(tms)
+    by = {}
+    for tm in tms:
+        if tm.g:
+            for inst in tm.model_structs():
+                by.setdefault(G.short(inst.path), tm)
+    for name in sorted(set(ref) | set(lay)):
+        r["instances"] += 1
+        if name not in lay or name not in ref:
+            rep.notes.append("G11: struct %s is %s" % (name, "new (not in the reference)" if name in lay else "gone"))
+            continue
+        cur = [[t, k] for t, k, ty in lay[name]]
+        if cur != ref[name]:
+            tm = by.get(name)
+            d = next((x for x in range(min(len(cur), len(ref[name]))) if cur[x] != ref[name][x]), min(len(cur), len(ref[name])))
+            rep.add(Finding("G11", tm.pfn if tm else name, "%s:layout" % name,
+                            "%s reads its fields in a different order / with different kinds than the reference layout "
+                            "(first difference at step %d: now %s, reference %s): messages laid out as documented are "
+                            "no longer accepted in that shape" % (name, d + 1, cur[d] if d < len(cur) else None,
+                                                                  ref[name][d] if d < len(ref[name]) else None),
+                            tm.file if tm else None, (tm.pb or {}).get("line") if tm else None))
+    return r
